@@ -35,7 +35,25 @@ class AccRunNone(R.UserAcc):
     run = None
 
 
+class Boxed(object):
+    """a user class used as a conversion element: Sequence(Boxed) boxes every value"""
+
+    def __init__(self, v):
+        self.v = v
+
+    def __eq__(self, other):
+        return isinstance(other, Boxed) and self.v == other.v
+
+    def __repr__(self):
+        return "Boxed(%r)" % (self.v,)
+
+
+CLASSES = {"str": str, "boxed": Boxed, "repr_type": type}
+
+
 def build_ext(r):
+    if r[0] == "cls":
+        return CLASSES[r[1]]
     if r[0] == "call_runnone":
         return CallRunNone(R.FUNCS[r[1]])
     if r[0] == "acc_runnone":
@@ -44,6 +62,8 @@ def build_ext(r):
 
 
 def manual_ext(r, flow):
+    if r[0] == "cls":
+        return map(CLASSES[r[1]], flow)
     if r[0] == "call_runnone":
         return map(CallRunNone(R.FUNCS[r[1]]), flow)
     if r[0] == "acc_runnone":
@@ -60,6 +80,26 @@ def manual_ext(r, flow):
             flow = manual_ext(x, flow)
         return flow
     return R.manual(r, flow)
+
+
+def _build_regrouped(r, nesting, style):
+    """a top-level Split recipe with every branch regrouped; other recipes as usual"""
+    if r[0] != "split":
+        return build_ext(r)
+    branches = []
+    for i, b in enumerate(r[1]):
+        if b and b[0] == "bare":
+            branches.append(R.build_branch(b))
+            continue
+        parts = [R.build(x) for x in b]
+        k = min(nesting[i % len(nesting)], len(parts))
+        if style == "sequence":
+            branches.append(Sequence(*parts))
+        elif k == 0:
+            branches.append(Sequence(Sequence(), *parts))
+        else:
+            branches.append(Sequence(Sequence(*parts[:k]), *parts[k:]))
+    return Split(branches, **r[2])
 
 
 def build_bracketed(els, br):
@@ -98,7 +138,8 @@ def bracketing(draw, n, depth=2):
 
 ext_recipe = st.one_of(R.el_recipes(2), R.el_recipes(2), R.el_recipes(1),
                        st.builds(lambda f: ["call_runnone", f], st.sampled_from(sorted(R.FUNCS))),
-                       st.just(["acc_runnone"]))
+                       st.just(["acc_runnone"]),
+                       st.builds(lambda c: ["cls", c], st.sampled_from(sorted(CLASSES))))
 
 
 @st.composite
@@ -107,7 +148,9 @@ def fold_case(draw):
     flow = draw(R.flows(8))
     return {"els": els, "flow": flow, "bracket": draw(bracketing(len(els))),
             "flow_as": draw(st.sampled_from(["list", "iter", "tuple"])),
-            "source_first": draw(st.sampled_from(["callable", "iterable", "sourceel"])),
+            "source_first": draw(st.sampled_from(["callable", "iterable", "sourceel", "source", "source"])),
+            "inner_tail": draw(st.sampled_from([0, 1, 2, len(els), len(els)])),
+            "branch_nesting": draw(st.lists(st.integers(0, 3), min_size=4, max_size=4)),
             "calls": draw(st.integers(1, 2))}
 
 
@@ -140,7 +183,7 @@ def _as_flow(js, how):
 
 
 def _kinds(els):
-    return set(R.kind(r) if r[0] not in ("call_runnone", "acc_runnone") else r[0] for r in R.flat(els))
+    return set(R.kind(r) if r[0] not in ("call_runnone", "acc_runnone", "cls") else r[0] for r in R.flat(els))
 
 
 def judge_fold(case):
@@ -154,23 +197,45 @@ def judge_fold(case):
     if br != ref:
         raise Violation("regrouping-changes-result",
                         "bracketing %s of %s on %s gives %s, flat gives %s" % (case["bracket"], short(els, 400), short(flowjs), short(br, 400), short(ref, 400)))
+    # regrouping inside Split branches: a branch given as an explicit Sequence (run block by block whatever
+    # it contains) is the same branch when its leading elements are grouped into a nested Sequence
+    if any(r[0] == "split" and r[1] for r in els) and "branch_nesting" in case:
+        res = {}
+        for style in ("sequence", "nested"):
+            res[style] = _norm(_drain(lambda: Sequence(*[_build_regrouped(r, case["branch_nesting"], style) for r in els]).run(
+                _as_flow(flowjs, case["flow_as"]))))
+        if res["sequence"] != res["nested"]:
+            raise Violation("regrouping-a-split-branch-changes-result",
+                            "the Splits in %s with branches Sequence(e1, .., en) on %s give %s, with branches Sequence(Sequence(e1..ek), .., en) (k from %s) they give %s" % (
+                                short(els, 400), short(flowjs), short(res["sequence"], 400), case["branch_nesting"], short(res["nested"], 400)))
     # Source: the same elements after a first element producing the flow
     for call_no in range(case["calls"]):
         vals = R.mkflow(flowjs)
+        k_in = 0
         if case["source_first"] == "callable":
             first = lambda: iter(R.mkflow(flowjs))
+        elif case["source_first"] == "source":
+            # the head is itself a Source holding the first k elements (k = all of them: the outer Source has no tail)
+            k_in = min(case.get("inner_tail", 0), len(els))
+            first = None
         elif case["source_first"] == "iterable":
             first = vals
         else:
             import lena.core
             first = lena.core.SourceEl(vals)
-        if case["source_first"] != "callable" and call_no > 0:
+        if case["source_first"] not in ("callable", "source") and call_no > 0:
             break
         import warnings
         with warnings.catch_warnings():
             warnings.simplefilter("ignore")
             args = [build_ext(r) for r in els] if call_no == 0 or True else None
-            src_res = _norm(_drain(lambda: Source(first, *build_bracketed(els, case["bracket"]))()))
+            if case["source_first"] == "source":
+                def mk():
+                    inner = Source(lambda: iter(R.mkflow(flowjs)), *[build_ext(r) for r in els[:k_in]])
+                    return Source(inner, *[build_ext(r) for r in els[k_in:]])()
+                src_res = _norm(_drain(mk))
+            else:
+                src_res = _norm(_drain(lambda: Source(first, *build_bracketed(els, case["bracket"]))()))
         if src_res != ref:
             raise Violation("source-tail-differs-from-sequence",
                             "Source(first(%s), %s)() = %s, Sequence gives %s" % (
@@ -347,3 +412,7 @@ CHECKS = [
           rule="ten kinds of junk at every position of Sequence / nested Sequence / Source (first, tail, no arguments) / Split (branch, tuple member, non-list): "
                "LenaTypeError from the constructor, nothing else, never deferred to the run. Non-trivial = junk at a non-first position."),
 ]
+
+
+from .. import covfuzz  # noqa
+CHECKS.append(covfuzz.check(CHECKS, "harness.props.c01", "fold", quick=3000, thorough=100000))
